@@ -138,7 +138,7 @@ inline bool run_case(Engine& E, const Plan& p, Rng& r, LinStats& ls) {
     if (p.cls == 'L') for (auto& o : out.ops) if (o.res <= RS_THREW && o.res != RS_CORRUPT) out.fail("unexpected-exception", std::string(kind_names[o.kind]) + " ended with exception code " + std::to_string(o.res));
     int n = (int)out.ops.size();
     int ov = overlapping_pairs(out.ops);
-    R.stat("ops", n); R.stat("overlapping_pairs", ov); R.stat("helper_ops", out.helper_ops);
+    R.stat("ops", n); R.stat("overlapping_pairs", ov); R.stat("helper_ops", out.helper_ops); R.stat("helper_skipped_because_a_thread_was_not_provably_asleep", out.helper_not_sure);
     R.stat("try_push_while_pop_blocked", out.try_push_while_pop_blocked); R.stat("try_push_full_while_pop_blocked", out.try_push_full_while_pop_blocked);
     R.stat("pops", as.pops); R.stat("try_pop_empty", as.empties); R.stat("try_push_full", as.fulls); R.stat("push_exceptions", as.exceptions);
     bool nontrivial = ov > 0;
